@@ -14,6 +14,8 @@ import Driver.SM2Model
 import Driver.X509Sign
 import Driver.BER
 import Driver.Resume
+import Driver.Negotiate
+import Driver.GMDecode
 open Gmsm
 
 def dispatch (toks : List String) : String :=
@@ -30,6 +32,12 @@ def dispatch (toks : List String) : String :=
     | some r => r
     | none =>
     match Driver.resumeDispatch toks with
+    | some r => r
+    | none =>
+    match Driver.negotiateDispatch toks with
+    | some r => r
+    | none =>
+    match Driver.gmdecodeDispatch toks with
     | some r => r
     | none =>
     match toks with
